@@ -63,6 +63,9 @@ type Term struct {
 
 type TermCtx struct {
 	tab    map[string]*Term
+	tab2   map[tkey]*Term
+	consts map[ckey]*Term
+	c8     [256]*Term
 	nextID uint32
 	True   *Term
 	False  *Term
@@ -70,13 +73,46 @@ type TermCtx struct {
 }
 
 func NewTermCtx() *TermCtx {
-	c := &TermCtx{tab: map[string]*Term{}, ufs: map[string]string{}}
+	c := &TermCtx{tab: map[string]*Term{}, tab2: map[tkey]*Term{}, consts: map[ckey]*Term{}, ufs: map[string]string{}}
 	c.True = c.mk(OpConst, 0, 1, "", nil)
 	c.False = c.mk(OpConst, 0, 0, "", nil)
 	return c
 }
 
+type tkey struct {
+	op         Op
+	w          int16
+	n          int8
+	c          uint64
+	s          string
+	a0, a1, a2 uint32
+}
+
 func (c *TermCtx) mk(op Op, w int, cv uint64, s string, a []*Term) *Term {
+	if len(a) > 3 {
+		return c.mkN(op, w, cv, s, a)
+	}
+	k := tkey{op: op, w: int16(w), c: cv, s: s, n: int8(len(a))}
+	switch len(a) {
+	case 3:
+		k.a2 = a[2].id
+		fallthrough
+	case 2:
+		k.a1 = a[1].id
+		fallthrough
+	case 1:
+		k.a0 = a[0].id
+	}
+	if t, ok := c.tab2[k]; ok {
+		return t
+	}
+	c.nextID++
+	t := &Term{Op: op, W: w, A: a, C: cv, S: s, id: c.nextID}
+	c.tab2[k] = t
+	return t
+}
+
+func (c *TermCtx) mkN(op Op, w int, cv uint64, s string, a []*Term) *Term {
 	var sb strings.Builder
 	sb.WriteByte(byte(op))
 	sb.WriteByte(byte(w))
@@ -121,7 +157,27 @@ func (c *TermCtx) Const(w int, v uint64) *Term {
 	if w == 0 {
 		panic("Const width 0")
 	}
-	return c.mk(OpConst, w, v&mask(w), "", nil)
+	v &= mask(w)
+	if w == 8 {
+		if t := c.c8[v]; t != nil {
+			return t
+		}
+		t := c.mk(OpConst, w, v, "", nil)
+		c.c8[v] = t
+		return t
+	}
+	k := ckey{w, v}
+	if t, ok := c.consts[k]; ok {
+		return t
+	}
+	t := c.mk(OpConst, w, v, "", nil)
+	c.consts[k] = t
+	return t
+}
+
+type ckey struct {
+	w int
+	v uint64
 }
 func (c *TermCtx) Bool(b bool) *Term {
 	if b {
